@@ -688,6 +688,16 @@ pub fn canon_frame(text: &str) -> String {
 }
 
 /// error objects of different shapes: with / without data, empty / long / escaped messages
+/// closing notifications: error notifications, and result notifications with a closing payload
+pub fn is_closing_frame(f: &str) -> bool {
+	let w: Vec<&str> = f.split(':').collect();
+	match w[0] {
+		"nerr" => true,
+		"ntf" => w.last().and_then(|p| p.parse::<u64>().ok()).map(|p| p >= CLOSE_BASE).unwrap_or(false),
+		_ => false,
+	}
+}
+
 pub fn reject_error(code: i32) -> ErrorObjectOwned {
 	match code.rem_euclid(4) {
 		0 => ErrorObjectOwned::owned(code, "rejected", None::<()>),
@@ -789,6 +799,8 @@ pub struct CaseRun {
 	pub check_c04: bool,
 	/// every frame seen per connection (canonical tokens), for the C04 oracle
 	pub streams: Vec<Vec<String>>,
+	/// connection state (closed?) at the end of the previous line
+	pub was_closed: Vec<bool>,
 	/// sends left parked on a full queue (`ss parksend`), in parking order: (sub, payload, task)
 	pub parked: Vec<(usize, u64, tokio::task::JoinHandle<bool>)>,
 }
@@ -847,7 +859,7 @@ impl CaseRun {
 		let (eager, lowlevel, cap, qcap, nconns) = parse_header(header)?;
 		let env = Env::new(eager, lowlevel, nconns, cap, qcap).await;
 		let book = Book { subs: vec![], peer_closed: vec![false; nconns], stopped: false, cap };
-		Some(CaseRun { env, subs: vec![], book, eager, nconns, check_c06, check_c04, streams: vec![vec![]; nconns], parked: vec![] })
+		Some(CaseRun { env, subs: vec![], book, eager, nconns, check_c06, check_c04, streams: vec![vec![]; nconns], was_closed: vec![false; nconns], parked: vec![] })
 	}
 
 	fn conn_serving(&self, c: usize) -> bool {
@@ -930,7 +942,19 @@ impl CaseRun {
 				}
 				self.streams[c].push(f.clone());
 			}
-			parts.push(format!("c{c}={}", if fs.is_empty() { "-".to_string() } else { fs.join(",") }));
+			// Left open by the properties (a scheduling race in the code): whether a closing notification
+			// queued while the stopping server finishes this connection still reaches the peer.  When the
+			// server is stopping and the connection went from open to closed within this line, closing
+			// frames are not shown (the model driver hides them under the same condition); the oracle
+			// above has checked them like any other frame.
+			let finishing = self.book.stopped && !self.was_closed[c] && self.env.closed(c);
+			let shown: Vec<String> = if finishing {
+				fs.iter().filter(|f| !is_closing_frame(f)).cloned().collect()
+			} else {
+				fs.clone()
+			};
+			self.was_closed[c] = self.env.closed(c);
+			parts.push(format!("c{c}={}", if shown.is_empty() { "-".to_string() } else { shown.join(",") }));
 			all.push(fs);
 		}
 		let bits: String = (0..self.nconns).map(|c| if self.env.closed(c) { '0' } else { '1' }).collect();
